@@ -3,6 +3,7 @@
 
 mod c11;
 mod c12;
+mod c13;
 mod util;
 
 use simcore::worker::Scenario;
@@ -11,5 +12,6 @@ fn main() {
     let mut scenarios: Vec<Scenario> = Vec::new();
     scenarios.extend(c11::scenarios());
     scenarios.extend(c12::scenarios());
+    scenarios.extend(c13::scenarios());
     simcore::worker::main(&scenarios)
 }
